@@ -29,7 +29,7 @@ THEOREMS = [
 ]
 RULE = (
     "strings of length 0-8 over an adversarial alphabet (both quotes, backslash, newline, CR, tab, NUL, DEL, braces, percent, Latin-1 non-printables, "
-    "non-ASCII printable, astral, lone surrogate, Python fragments) plus fixed payloads; 7 splice positions; non-trivial = the string contains a character "
+    "non-ASCII printable, astral, lone surrogate, Python fragments) plus fixed payloads; 9 splice positions; non-trivial = the string contains a character "
     "outside [A-Za-z0-9_]; literal-lexer inputs are repr outputs with random mutations and continuations"
 )
 
@@ -159,7 +159,7 @@ def repr_cases(ctx, n):
 # (2) end to end
 # ---------------------------------------------------------------------------------------
 
-POSITIONS = ["meta_alias", "annotated_alias", "config_alias", "typeddict_key", "discriminator_field", "forbid_extra_keys", "literal_str", "literal_bytes"]
+POSITIONS = ["meta_alias", "annotated_alias", "config_alias", "typeddict_key", "discriminator_field", "forbid_extra_keys", "literal_str", "literal_bytes", "alias_kwargs_serializer"]
 # positions whose strings must be Python identifiers (namedtuple member names used as keys under
 # namedtuple_as_dict / serialize="as_dict"): exotic but legal identifiers, among them ones that are not
 # NFKC-stable (the compiler would normalise them if they were spliced as identifier tokens)
@@ -221,6 +221,16 @@ def end_to_end(pos, s, idx):
                 except ExtraKeysError as e:
                     if set(e.extra_keys) != {s + "_"}:
                         return f"extra keys {e.extra_keys!r}"
+        elif pos == "alias_kwargs_serializer":
+            # the serializer that fills the result key by key (a nullable converted member, omit_none, omit_default)
+            for cfg in ({"serialize_by_alias": True}, {"serialize_by_alias": True, "omit_none": True}, {"serialize_by_alias": True, "omit_default": True}):
+                cls = mk({"a": int, "y": typing.Optional[bytes]}, {"a": dataclasses.field(metadata=field_options(alias=s)), "y": None}, cfg)
+                d = cls(5).to_dict()
+                exp = {s: 5} if (cfg.get("omit_none") or cfg.get("omit_default")) else {s: 5, "y": None}
+                if s != "y" and (d != exp or list(d.keys())[0] != s):
+                    return f"to_dict gives {d!r}, expected {exp!r} ({cfg})"
+                if s != "y" and cls.from_dict(d) != cls(5):
+                    return f"round trip of {d!r} ({cfg})"
         elif pos == "typeddict_key":
             td = typing.TypedDict("TD16", {s: int, "other": typing.NotRequired[int]})
             r = BasicEncoder(td).encode({s: 3})
